@@ -762,7 +762,11 @@ impl XmlAttribute {
     }
 
     fn namespace(&self) -> bool {
-        self.prefix().map(|p| p == "xmlns").unwrap_or_default() || self.local_name() == "xmlns"
+        match self.prefix() {
+            Some(p) => p == "xmlns",
+            // "p:xmlns" is an ordinary attribute of the namespace bound to p.
+            None => self.local_name() == "xmlns",
+        }
     }
 }
 
@@ -2472,7 +2476,7 @@ impl XmlElement {
         for attr in self.namespace_attributes().iter() {
             let namespace_name = attr.borrow().normalized_value()?;
 
-            if attr.borrow().local_name() == "xmlns" {
+            if attr.borrow().prefix().is_none() {
                 items.push(node(XmlNamespace {
                     prefix: None,
                     namespace_name,
